@@ -79,12 +79,28 @@ func readVarBytes(r io.Reader, numLenBytes int) ([]byte, error) {
 	if err != nil {
 		return nil, err
 	}
-	data := make([]byte, l)
-	if n, err := io.ReadFull(r, data); err != nil {
-		if err == io.EOF || err == io.ErrUnexpectedEOF {
-			return nil, fmt.Errorf("short read: expected %d but got %d", l, n)
+	// The length prefix is attacker-controlled (up to 2^24 for certificates):
+	// grow the buffer as the data arrives instead of allocating l bytes for
+	// an input that may hold only a few.
+	const chunk = 64 << 10
+	first := l
+	if first > chunk {
+		first = chunk
+	}
+	data := make([]byte, 0, first)
+	for uint64(len(data)) < l {
+		n := l - uint64(len(data))
+		if n > chunk {
+			n = chunk
 		}
-		return nil, err
+		start := len(data)
+		data = append(data, make([]byte, n)...)
+		if k, err := io.ReadFull(r, data[start:]); err != nil {
+			if err == io.EOF || err == io.ErrUnexpectedEOF {
+				return nil, fmt.Errorf("short read: expected %d but got %d", l, start+k)
+			}
+			return nil, err
+		}
 	}
 	return data, nil
 }
